@@ -17,4 +17,10 @@ theorem subscribe_before_cache_read : watchSubscribesBeforeCacheRead = true := b
 /-- C05: the fan-out loop spawns no asynchronous deletion of a slow subscriber. -/
 theorem slow_subscribers_deleted_synchronously : hubAsyncDeletes = 0 := by decide
 
+/-- C05 / C16 / C13: the etcd watch server finds a watch registered and forgets it in ONE critical section (`watcher.Cancel`):
+of two overlapping cancels of one id - the watch goroutine's own refusal and the client's cancel request - exactly one answers
+`canceled`. (The watch model ends a watch in one step; this fact is the tie for that atomicity. Dynamic counterpart:
+racetest `TestWatchIdsAndCancelsOnOneStream`.) -/
+theorem watch_forgotten_under_the_lookup_lock : watchCancelForgetsUnderTheLookupLock = true := by decide
+
 end KB.OrderC05
